@@ -66,8 +66,17 @@ def _d(h, cls, state):
     deserialization. For ASTs, this does not work.
     """
     op, args, length, variables, symbolic, annotations = state
+    # the pickled annotations already include what the children contributed: keep the tuple exactly as it was
     return cls.__new__(
-        cls, op, args, length=length, variables=variables, symbolic=symbolic, annotations=annotations, hash=h
+        cls,
+        op,
+        args,
+        length=length,
+        variables=variables,
+        symbolic=symbolic,
+        annotations=annotations,
+        skip_child_annotations=True,
+        hash=h,
     )
 
 
